@@ -228,6 +228,8 @@ def units(tier, seed):
         hsel = [('F22', 'PB', 'PB')] if tier == 'quick' else [('F22', 'PB', 'PB'), ('F22', 'PB', 'SAME', 'PB'), ('F32', 'PB', 'F11', 'PB')]     # (no driver calls here: they are defined for functions R^N -> R^M only)
         if branching:
             hsel = [('F11', 'PB', 'PB')]      # (one branch per element and direction: a single direction)
+        elif prog.group == 'buffer' and tier == 'quick':
+            hsel = hsel + [('F22', 'F22', 'PB')]      # (buffers and constant nodes: a second forward evaluation before the sweep)
         for h in hsel:
             out.append(Unit('C06/%s/%s' % (prog.name, '>'.join(h)), 'symx.props.c06', 'h_history', {'pname': prog.name, 'seq': list(h)}, dict(opts)))
     # using a finished graph while another one is being recorded is part of a call history too
